@@ -467,14 +467,15 @@ class Topo:
         return '(mkWorld [%s] [%s] [] [])' % (';'.join(nodes), lans)
 
     def describe(self):
-        return {'nets': {str(n): [bytes(m).hex() for m in ms] for n, ms in self.nets.items()},
+        return {'nets': [[n, [bytes(m).hex() for m in ms]] for n, ms in self.nets.items()],     # ordered: creation order matters
                 'routers': [[[n, bytes(m).hex()] for n, m in ports] for ports in self.routers],
                 'modes': {'%d:%s' % (n, bytes(m).hex()): v for (n, m), v in self.modes.items()}, 'cyclic': self.cyclic,
                 'apps': list(self.apps)}
 
     @staticmethod
     def from_desc(d):
-        nets = collections.OrderedDict((int(n), [bytes.fromhex(m) for m in ms]) for n, ms in d['nets'].items())
+        items = d['nets'].items() if isinstance(d['nets'], dict) else d['nets']
+        nets = collections.OrderedDict((int(n), [bytes.fromhex(m) for m in ms]) for n, ms in items)
         routers = [[(n, bytes.fromhex(m)) for n, m in ports] for ports in d['routers']]
         modes = {(int(k.split(':')[0]), bytes.fromhex(k.split(':')[1])): v for k, v in d['modes'].items()}
         return Topo(nets, routers, modes, d.get('cyclic', False), d.get('apps', ()))
@@ -1270,7 +1271,7 @@ def _replay(f):
     elif 'reply_to' in f:
         # a failing reply: replay the request it answers, the reply is sent again as part of it
         _replay(f['reply_to'])
-    elif 'topology' in f and 'source' in f:
+    elif 'topology' in f and 'source' in f and 'concurrent' not in f and 'burst' not in f:
         topo = Topo.from_desc(f['topology'])
         net = build(topo)
         src = (f['source'][0], bytes.fromhex(f['source'][1]))
